@@ -46,6 +46,7 @@ Definition wf_op (o : lop) : Prop :=
   | OKill s => 1 <= s < 127
   | OEnv (EExit c) => 0 <= c < 256
   | OEnv (ESignalled s) => 1 <= s < 127
+  | OEnv EReapedElsewhere => False         (* a world where nobody else reaps our child; Life/Foreign.v lifts this *)
   | _ => True
   end.
 
@@ -247,12 +248,12 @@ Definition pty_terminate_ok w force := terminate_spec pty_isalive pty_isalive_ok
 (** -- sequences of operations (close is covered by the correspondence and the real-kernel oracle, not by a theorem) ---- *)
 Definition no_close (o : lop) : bool := match o with OClose _ | ODrop => false | _ => true end.
 
-Lemma env1_spec c e : (match e with EExit x => 0 <= x < 256 | ESignalled s => 1 <= s < 127 end) ->
+Lemma env1_spec c e : (match e with EExit x => 0 <= x < 256 | ESignalled s => 1 <= s < 127 | EReapedElsewhere => False end) ->
   (alive c = false -> good_status (fate c)) ->
   reaped (env1 c e) = reaped c /\ (alive (env1 c e) = false -> good_status (fate (env1 c e))) /\ (alive c = false -> env1 c e = c).
 Proof.
-  intros He Hg. unfold env1. destruct (alive c) eqn:Ea; cbn [negb]; [|auto].
-  destruct e; cbn; repeat split; auto; try discriminate; intros _.
+  intros He Hg. unfold env1. destruct e as [code|sig|]; [| |contradiction]; (destruct (alive c) eqn:Ea; cbn [negb]; [|auto]);
+    cbn; repeat split; auto; try discriminate; intros _.
   - left. exists code. split; [exact He | reflexivity].
   - right. exact He.
 Qed.
